@@ -30,6 +30,16 @@ def try_replay(prop, harness, record):
     return {"status": "unavailable", "detail": "no native replayer for this harness; solver counterexample only"}
 
 
+# Replayers that do not look at the solver's concrete values (they replay the scenario class natively): extracting the values
+# costs a second solver run per failing harness, so it is skipped for them.
+NO_VALUES = ("c02_", "c03_", "c09_", "c12_", "c13_", "c20_", "c21_two_event_loops", "c25_release_on_drop", "c26_first_lookups",
+             "c26_sequential", "c19_history")
+
+
+def needs_values(harness):
+    return not harness.startswith(NO_VALUES)
+
+
 def replay_file(prop, path):
     rec = json.load(open(path))
     v = try_replay(prop, rec["harness"], rec)
